@@ -8,7 +8,7 @@ Fixpoint mem_stack (s : stack) : bool :=
   match s with
   | SMem => true
   | SCached s' | SBatched _ s' => mem_stack s'
-  | SLevel | SFmt _ _ => false
+  | SLevel | SFmt _ _ | SFmtR _ _ => false
   end.
 
 Lemma wf_op_batch q : forallb wf_bop q = true -> wf_op (Batch q) = true.
@@ -22,11 +22,12 @@ Fixpoint stack_rel (s : stack) : St (prov_of s) -> store -> Prop :=
   | SCached s' => cached_rel (stack_rel s')
   | SBatched l s' => batched_rel l (stack_rel s')
   | SFmt f s' => fmt_rel (fmt_of f) (prov_of s') (stack_rel s')
+  | SFmtR _ s' => fun _ _ => False
   end.
 
 Lemma stack_sim s : mem_stack s = true -> sim wf_op false (prov_of s) (stack_rel s).
 Proof.
-  induction s as [| |s' IH|l s' IH|f s' IH]; intros H; cbn in H; try discriminate.
+  induction s as [| |s' IH|l s' IH|f s' IH|f s' IH]; intros H; cbn in H; try discriminate.
   - apply mem_sim.
   - cbn [prov_of stack_rel]. apply cached_sim; [auto|reflexivity|apply IH; assumption].
   - cbn [prov_of stack_rel]. apply batched_sim; [exact wf_op_batch|apply IH; assumption|auto|reflexivity].
@@ -34,7 +35,7 @@ Qed.
 
 Lemma stack_rel_init s : mem_stack s = true -> stack_rel s (init (prov_of s)) [].
 Proof.
-  induction s as [| |s' IH|l s' IH|f s' IH]; intros H; cbn in H; try discriminate.
+  induction s as [| |s' IH|l s' IH|f s' IH|f s' IH]; intros H; cbn in H; try discriminate.
   - reflexivity.
   - cbn. split; [apply IH; assumption|]. split; [apply cache_ok_nil|apply wf_store_nil].
   - cbn. apply batched_rel_fresh. apply IH; assumption.
@@ -44,7 +45,7 @@ Qed.
    wrappers are transparent also over a provider that already holds data *)
 Lemma stack_rel_rewrap s : mem_stack s = true -> forall x a, stack_rel s x a -> stack_rel s (rewrap s x) a.
 Proof.
-  induction s as [| |s' IH|l s' IH|f s' IH]; intros H x a Hr; cbn in H; try discriminate.
+  induction s as [| |s' IH|l s' IH|f s' IH|f s' IH]; intros H x a Hr; cbn in H; try discriminate.
   - exact Hr.
   - destruct x as [m c]. destruct Hr as [H1 [H2 H3]]. cbn [rewrap fst snd] in *.
     split; [apply IH; assumption|]. split; [apply cache_ok_nil|assumption].
@@ -57,7 +58,7 @@ Qed.
 Fixpoint plain_stack (s : stack) : bool :=
   match s with
   | SMem => true
-  | SLevel => false
+  | SLevel | SFmtR _ _ => false
   | SCached s' | SBatched _ s' | SFmt _ s' => plain_stack s'
   end.
 
@@ -70,7 +71,7 @@ Proof. intros H. unfold wf1_op. cbn. rewrite H. reflexivity. Qed.
 
 Lemma plain_stack_sim s : plain_stack s = true -> sim wf1_op false (prov_of s) (stack_rel s).
 Proof.
-  induction s as [| |s' IH|l s' IH|f s' IH]; intros H; cbn in H; try discriminate.
+  induction s as [| |s' IH|l s' IH|f s' IH|f s' IH]; intros H; cbn in H; try discriminate.
   - apply mem_sim.
   - cbn [prov_of stack_rel]. apply cached_sim; [exact wf1_wf|reflexivity|apply IH; assumption].
   - cbn [prov_of stack_rel]. apply batched_sim; [exact wf1_op_batch|apply IH; assumption|exact wf1_wf|reflexivity].
@@ -79,7 +80,7 @@ Qed.
 
 Lemma plain_stack_rel_init s : plain_stack s = true -> stack_rel s (init (prov_of s)) [].
 Proof.
-  induction s as [| |s' IH|l s' IH|f s' IH]; intros H; cbn in H; try discriminate.
+  induction s as [| |s' IH|l s' IH|f s' IH|f s' IH]; intros H; cbn in H; try discriminate.
   - reflexivity.
   - cbn. split; [apply IH; assumption|]. split; [apply cache_ok_nil|apply wf_store_nil].
   - cbn. apply batched_rel_fresh. apply IH; assumption.
@@ -88,7 +89,7 @@ Qed.
 
 Lemma plain_stack_rel_rewrap s : plain_stack s = true -> forall x a, stack_rel s x a -> stack_rel s (rewrap s x) a.
 Proof.
-  induction s as [| |s' IH|l s' IH|f s' IH]; intros H x a Hr; cbn in H; try discriminate.
+  induction s as [| |s' IH|l s' IH|f s' IH|f s' IH]; intros H x a Hr; cbn in H; try discriminate.
   - exact Hr.
   - destruct x as [m c]. destruct Hr as [H1 [H2 H3]]. cbn [rewrap fst snd] in *.
     split; [apply IH; assumption|]. split; [apply cache_ok_nil|assumption].
